@@ -20,12 +20,23 @@ CONCRETE = ["Word", "Phrase", "Regex", "SearchField", "Group", "FieldGroup", "Ra
 def make_probe(I, base, handlers, name, prefix="visit_", generic_name="generic_visit"):
     camel = I.visitor.camel_to_lower
 
-    def mk(cname):
+    def mk(cname, k=[0]):
         def h(self, node, context):
             self.events.append((cname, id(node), tuple(id(p) for p in context.get("parents", ())),
                                 context.get("path")))
             yield from base.generic_visit(self, node, context)
-        return h
+            # post-order work: the context a handler was given still describes ITS node when the children are done
+            # (seeded C08-H: the parent's dictionary handed to the last child and written to)
+            self.leaves.append((id(node), tuple(id(p) for p in context.get("parents", ()))))
+
+        def plain(self, node, context):
+            # a handler written as a plain method that returns an iterable: it runs when the traversal reaches the
+            # node, not before (seeded C08-H: the children's visits started eagerly)
+            self.events.append((cname, id(node), tuple(id(p) for p in context.get("parents", ())),
+                                context.get("path")))
+            return list(base.generic_visit(self, node, context))
+        k[0] += 1
+        return plain if k[0] % 3 == 0 else h
 
     def generic(self, node, context):
         self.events.append(("<generic>", id(node), tuple(id(p) for p in context.get("parents", ())),
@@ -84,6 +95,7 @@ def run(ctx):
                     snaps[j] = trees.snapshot(objs[j])
                     ctx.count("tree edited in place between visits")
             inst.events = []
+            inst.leaves = []
             res = inst.visit(objs[j])
             idp = trees.id_paths(objs[j])
             evs = []
@@ -120,6 +132,13 @@ def run(ctx):
                     break
             if res != []:
                 ctx.fail("a visit that yields nothing returned %r" % (res,), {"tree": tlist[j]})
+            entered = {nid: pids for _, nid, pids, _ in inst.events}
+            for nid, pids in inst.leaves:
+                if entered.get(nid) != pids:
+                    ctx.fail("when a handler is done with the children of its node, the context it was given lists other "
+                             "ancestors than when it started", {"handlers": hs, "tree": tlist[j],
+                                                                "path": list(idp.get(nid) or ())})
+                    break
         for o, s, d in zip(objs, snaps, tlist):
             if not trees.unchanged(o, s):
                 ctx.fail("visiting modified the tree", {"tree": d})
